@@ -380,7 +380,7 @@ class Contracts:
         for label in ('err', 'ok-d0', 'ok-d1'):
             st = self.I.new_state()
             w8 = lay.parser['depth'][1] * 8
-            md = st.fresh('cfg:max_depth', w8, 1, 255 if w8 == 8 else (1 << w8) - 1)
+            md = st.fresh('cfg:max_depth', w8, 1, 255 if w8 == 8 else lay.objmax // lay.ssize)
             bs = st.fresh('cfg:buffer_size', lay.szw, 0 if label == 'err' else 2, lay.objmax)
             self.parser_regions(st, Aff.sym(bs), Aff.sym(md))
             F = lay.parser
@@ -445,7 +445,7 @@ class Contracts:
         lay = self.lay
         st = self.I.new_state()
         w8 = lay.parser['depth'][1] * 8
-        md = st.fresh('cfg:max_depth', w8, 1, 255 if w8 == 8 else (1 << w8) - 1)
+        md = st.fresh('cfg:max_depth', w8, 1, 255 if w8 == 8 else lay.objmax // lay.ssize)
         bs = st.fresh('arg:buffer_size', lay.szw, 0, lay.objmax)
         self.parser_regions(st, Aff.sym(bs), Aff.sym(md))
         F = lay.parser
